@@ -347,8 +347,12 @@ class H(Harness):
         import epydemic.coreperiphery_generator as CM
         from epydemic import CorePeripheryNetwork as CP
         orc = install(Oracle(seed=case['seed'], script={'random': case['rs']}))
-        rec = {'gnp': [], 'comps': []}
-        real_gnp, real_cc = CM.fast_gnp_random_graph, CM.connected_components
+        rec = {'gnp': [], 'comps': [], 'orders': []}
+        real_gnp, real_cc, real_conv = CM.fast_gnp_random_graph, CM.connected_components, CM.convert_node_labels_to_integers
+
+        def conv(g, *a, **kw):
+            rec['orders'].append(list(g.nodes()))
+            return real_conv(g, *a, **kw)
 
         def gnp(n, p, *a, **kw):
             g = real_gnp(n, p, *a, **kw)
@@ -362,12 +366,12 @@ class H(Harness):
 
         exc = None
         g = None
-        with patched(CM, fast_gnp_random_graph=gnp, connected_components=cc):
+        with patched(CM, fast_gnp_random_graph=gnp, connected_components=cc, convert_node_labels_to_integers=conv):
             try:
                 g = CP().set({CP.N_core: case['Nc'], CP.PHI_core: case['phi_core'], CP.N_per: case['Np'], CP.PHI_per: case['phi_per']}).generate()
             except Exception as e:
                 exc = type(e).__name__ + ': ' + str(e)
-        obs = {'exception': exc, 'g': g, 'gnp': rec['gnp'], 'comps': rec['comps'], 'rs': [e[1] for e in orc.values('random')]}
+        obs = {'exception': exc, 'g': g, 'gnp': rec['gnp'], 'comps': rec['comps'], 'orders': rec['orders'], 'rs': [e[1] for e in orc.values('random')]}
         if g is not None:
             obs['nodes'] = [(n, g.nodes[n].get(CP.ORIGIN)) for n in g.nodes()]
             obs['edges'] = [tuple(e) for e in g.edges()]
@@ -381,8 +385,12 @@ class H(Harness):
         import epydemic.modular_generator as MM
         from epydemic import ModularNetwork as MN
         orc = install(Oracle(seed=case['seed']))
-        rec = {'gnp': [], 'comps': []}
-        real_gnp, real_cc = MM.fast_gnp_random_graph, MM.connected_components
+        rec = {'gnp': [], 'comps': [], 'orders': []}
+        real_gnp, real_cc, real_conv = MM.fast_gnp_random_graph, MM.connected_components, MM.convert_node_labels_to_integers
+
+        def conv(g, *a, **kw):
+            rec['orders'].append(list(g.nodes()))
+            return real_conv(g, *a, **kw)
 
         def gnp(n, p, *a, **kw):
             g = real_gnp(n, p, *a, **kw)
@@ -396,13 +404,13 @@ class H(Harness):
 
         exc = None
         g = None
-        with patched(MM, fast_gnp_random_graph=gnp, connected_components=cc):
+        with patched(MM, fast_gnp_random_graph=gnp, connected_components=cc, convert_node_labels_to_integers=conv):
             try:
                 g = MN().set({MN.N_core: case['Nc'], MN.PHI_core: case['phi_core'], MN.SATELLITES: case['sats'],
                               MN.N_sat: case['Ns'], MN.PHI_sat: case['phi_sat']}).generate()
             except Exception as e:
                 exc = type(e).__name__ + ': ' + str(e)
-        obs = {'exception': exc, 'g': g, 'gnp': rec['gnp'], 'comps': rec['comps'], 'choices': [(e[1], e[2]) for e in orc.values('choice')]}
+        obs = {'exception': exc, 'g': g, 'gnp': rec['gnp'], 'comps': rec['comps'], 'orders': rec['orders'], 'choices': [(e[1], e[2]) for e in orc.values('choice')]}
         if g is not None:
             obs['nodes'] = [(n, g.nodes[n].get(MN.ORIGIN), g.nodes[n].get(MN.CORE_LINK)) for n in g.nodes()]
             obs['edges'] = [tuple(e) for e in g.edges()]
@@ -627,25 +635,25 @@ class H(Harness):
             return 'CFixed %s %s %s %s' % (gt(obs['proto_nodes'], obs['proto_edges']), optnat(case['limit']), ops(case['ops']),
                                            L.lst(['None' if o is None else '(Some %s)' % gt(o[0], o[1]) for o in obs['outs']]))
         if k == 'cp':
-            bad = obs['exception'] or obs['g'] is None or len(obs['gnp']) != 2 or len(obs['comps']) != 1
+            bad = obs['exception'] or obs['g'] is None or len(obs['gnp']) != 2 or len(obs['comps']) != 1 or len(obs['orders']) != 3
             if not bad:
                 (n1, e1), (n2, e2) = obs['gnp']
-                bad = n1 != list(range(case['Nc'])) or n2 != list(range(case['Np']))
+                bad = n1 != list(range(case['Nc'])) or n2 != list(range(case['Np'])) or obs['orders'][0] != n1 or obs['orders'][1] != n2
             if bad:
-                return 'CCP {| cp_Nc := 0; cp_Np := 0; cp_core := []; cp_per := []; cp_phi := 0; cp_rs := []; cp_comps := [] |} [((-1)%Z, 0%Z)] [] [] []'
-            inp = ('{| cp_Nc := %s; cp_Np := %s; cp_core := %s; cp_per := %s; cp_phi := %s; cp_rs := %s; cp_comps := %s |}'
+                return 'CCP {| cp_Nc := 0; cp_Np := 0; cp_core := []; cp_per := []; cp_phi := 0; cp_rs := []; cp_comps := []; cp_order := [] |} [((-1)%Z, 0%Z)] [] [] []'
+            inp = ('{| cp_Nc := %s; cp_Np := %s; cp_core := %s; cp_per := %s; cp_phi := %s; cp_rs := %s; cp_comps := %s; cp_order := %s |}'
                    % (L.nat(case['Nc']), L.nat(case['Np']), el(e1), el(e2), L.q(case['phi_per']), L.lst(obs['rs'], L.q),
-                      L.lst([zl(c) for c in obs['comps'][0]])))
+                      L.lst([zl(c) for c in obs['comps'][0]]), zl(obs['orders'][2])))
             return 'CCP %s %s %s %s %s' % (inp, el(obs['nodes']), el(obs['edges']), zl(obs['core']), zl(obs['per']))
         if k == 'mod':
             S = case['sats']
-            bad = obs['exception'] or obs['g'] is None or len(obs['gnp']) != S + 1 or len(obs['comps']) != S + 1 or len(obs['choices']) != 2 * S
+            bad = obs['exception'] or obs['g'] is None or len(obs['gnp']) != S + 1 or len(obs['comps']) != S + 1 or len(obs['orders']) != S + 1 or len(obs['choices']) != 2 * S
             if not bad:
                 bad = any(ns != list(range(case['Nc'] if j == 0 else case['Ns'])) for j, (ns, _) in enumerate(obs['gnp']))
             if bad:
-                return ('CMod {| md_Nc := 0; md_Ns := 0; md_centre := {| m_edges := []; m_comps := [] |}; md_sats := []; md_choices := [] |} '
+                return ('CMod {| md_Nc := 0; md_Ns := 0; md_centre := {| m_edges := []; m_comps := []; m_order := [] |}; md_sats := []; md_choices := [] |} '
                         '[((-1)%Z, 0%Z, false)] []')
-            mod = lambda j: '{| m_edges := %s; m_comps := %s |}' % (el(obs['gnp'][j][1]), L.lst([zl(c) for c in obs['comps'][j]]))
+            mod = lambda j: '{| m_edges := %s; m_comps := %s; m_order := %s |}' % (el(obs['gnp'][j][1]), L.lst([zl(c) for c in obs['comps'][j]]), zl(obs['orders'][j]))
             ch = obs['choices']
             inp = ('{| md_Nc := %s; md_Ns := %s; md_centre := %s; md_sats := %s; md_choices := %s |}'
                    % (L.nat(case['Nc']), L.nat(case['Ns']), mod(0), L.lst([mod(j) for j in range(1, S + 1)]),
